@@ -68,7 +68,13 @@ theorem frame_step {s s' : State} {t : Nat} {l : Label} (h : Inv s) (hs : step s
   | fin4 cs => unfold step at hs; rw [hph] at hs; frm
   | fin5 cs => unfold step at hs; rw [hph] at hs; frm
   | fin6 cs => unfold step at hs; rw [hph] at hs; frm
-  | linger => unfold step at hs; rw [hph] at hs; simp only at hs; split at hs <;> frm
+  | linger =>
+    unfold step at hs; rw [hph] at hs; simp only at hs
+    split at hs
+    · frm
+    · split at hs
+      · split at hs <;> frm
+      · frm
   | running =>
     cases hc : s.call t with
     | idle r => unfold step at hs; rw [hph] at hs; simp only [hc] at hs; cases hs
@@ -248,7 +254,7 @@ def Walking (s0 s : State) (t p : Nat) : Prop :=
 
 theorem walk_env {s0 s s' : State} {t p : Nat} (h : DoneAll s0 s p ∨ Walking s0 s t p) (he : sys.env s s') :
     DoneAll s0 s' p ∨ Walking s0 s' t p := by
-  rcases he with ⟨t', op, hc⟩ | ⟨x, hx⟩
+  rcases he with ⟨t', op, hc⟩ | ⟨x, hx⟩ | ⟨x, hx⟩
   · obtain ⟨f, r, hidle⟩ := frame_call hc
     rcases h with h | ⟨hph, work, hcl, hcov⟩
     · exact Or.inl (fun d hd => (h d hd).imp (f.pst d) (f.stp d))
@@ -265,6 +271,16 @@ theorem walk_env {s0 s s' : State} {t p : Nat} (h : DoneAll s0 s p ∨ Walking s
         · exact Or.inr (Or.inr (Or.inl h1))
         · exact Or.inr (Or.inr (Or.inr (Or.inl h1)))
         · exact Or.inr (Or.inr (Or.inr (Or.inr ⟨u, hu, desc_mono (s := s) (s' := fireTill s x) (fun _ _ hh => hh) hdd⟩)))⟩
+  · subst hx
+    rcases h with h | ⟨hph, work, hcl, hcov⟩
+    · exact Or.inl h
+    · exact Or.inr ⟨hph, work, hcl, fun d hd => by
+        rcases hcov d hd with h1 | h1 | h1 | h1 | ⟨u, hu, hdd⟩
+        · exact Or.inl h1
+        · exact Or.inr (Or.inl h1)
+        · exact Or.inr (Or.inr (Or.inl h1))
+        · exact Or.inr (Or.inr (Or.inr (Or.inl h1)))
+        · exact Or.inr (Or.inr (Or.inr (Or.inr ⟨u, hu, desc_mono (s := s) (s' := expire s x) (fun _ _ hh => hh) hdd⟩)))⟩
 
 theorem walk_step {s0 s s' : State} {t p t' : Nat} {l : Label} (hr : sys.Reach s)
     (h : DoneAll s0 s p ∨ Walking s0 s t p) (hs : step s t' = some (s', l)) :
